@@ -26,7 +26,7 @@ Section ComposeFacts.
   Variables (world gs nb : nat) (owner : nat -> nat) (nbytes : nat).
 
   Local Notation P := (optP Op c dims world gs nb owner nbytes).
-  Local Notation idv := (fun v : ovalue (F:=F) => v).
+  Local Notation idv := (fun v : list F => v).
 
   Lemma any_sel_abs (e : entry (ograd (F:=F))) :
     existsb (fun i : binput (F:=F) => match i_grad i with Some _ => true | None => false end) (abs_ins nb e) = any_sel P e.
@@ -36,7 +36,7 @@ Section ComposeFacts.
     destruct (nth_error e b) as [[[[gv h] ans]|]|]; reflexivity.
   Qed.
 
-  Lemma step_abs (s : sstate (obstate (F:=F)) (ovalue (F:=F))) (e : entry (ograd (F:=F))) hh :
+  Lemma step_abs (s : sstate (Optimizer.bstate (F:=F)) (list F)) (e : entry (ograd (F:=F))) hh :
     uniform hh e ->
     fst (group_step Op c hh (sstepc s) (abs_blocks dims nb s) (abs_ins nb e))
     = (sstepc (serial_step P idv s e), abs_blocks dims nb (serial_step P idv s e)).
@@ -143,3 +143,73 @@ Proof.
   - rewrite Nat.div_mul by lia. reflexivity.
   - intros b Hb. apply lpt_owner_lt; assumption.
 Qed.
+
+(* ---- function-indexed form, for ANY cluster parameters whose per-block computation is the optimizer's ---------- *)
+Lemma triple_shuffle {F : Type} (d : list nat) (x : vec (F:=F) * bstate (F:=F) * list (query (F:=F))) :
+  fst (let '(w', st', qs) := x in (mkB d w' st', qs))
+  = mkB d (let (_, q) := (let '(w', st', _) := x in (st', w')) in q)
+          (let (st', _) := (let '(w', st', _) := x in (st', w')) in st').
+Proof. destruct x as [[w' st'] qs]. reflexivity. Qed.
+
+Section ComposeFnFacts.
+  Context {F : Type} (Op : ops F).
+  Variable c : cfg (F:=F).
+  Variable dims : nat -> list nat.
+  Variable hh : Z -> hints (F:=F).
+  Variable ans : nat -> Z -> list (list (list F)).
+  Variable P : params (Optimizer.bstate (F:=F)) (list F) (list F).
+  Hypothesis Hupd : p_upd P = fn_upd Op c dims hh ans.
+  Hypothesis Happly : p_apply P = (fun _ q => q).
+  Hypothesis Hdv : p_dv P = [].
+  Hypothesis Hds : p_ds P = st_empty.
+
+  Local Notation idv := (fun v : list F => v).
+  Local Notation nb := (p_nb P).
+
+  Lemma any_sel_fn (k : Z) (e : entry (list F)) :
+    existsb (fun i : binput (F:=F) => match i_grad i with Some _ => true | None => false end) (fn_ins ans nb k e) = any_sel P e.
+  Proof.
+    unfold fn_ins, tab, any_sel. rewrite existsb_map_comp.
+    apply existsb_ext_in. intros b _. unfold selb, gradof.
+    destruct (nth_error e b) as [[g|]|]; reflexivity.
+  Qed.
+
+  Lemma step_abs_fn (s : sstate (Optimizer.bstate (F:=F)) (list F)) (e : entry (list F)) :
+    fst (group_step Op c (hh (sstepc s + 1)) (sstepc s) (abs_blocks dims nb s) (fn_ins ans nb (sstepc s + 1) e))
+    = (sstepc (serial_step P idv s e), abs_blocks dims nb (serial_step P idv s e)).
+  Proof.
+    unfold group_step, serial_step. rewrite any_sel_fn.
+    destruct (any_sel P e) eqn:Hany; cbn [fst]; [|reflexivity].
+    f_equal. cbn [sstepc svals ssts].
+    unfold abs_blocks at 1, fn_ins, tab. rewrite map2_map_same, map_map.
+    unfold abs_blocks, tab. cbn [svals ssts].
+    apply map_ext_in. intros b Hb. apply in_seq in Hb. destruct Hb as [_ Hb]. cbn in Hb.
+    fold (tab nb (fun b0 : nat =>
+         match block_out P (sstepc s + 1) (ssts s) (svals s) e b0 with
+         | Some (_, q) => p_apply P (nth b0 (svals s) (p_dv P)) q
+         | None => nth b0 (svals s) (p_dv P)
+         end)).
+    fold (tab nb (fun b0 : nat =>
+         match block_out P (sstepc s + 1) (ssts s) (svals s) e b0 with
+         | Some (st', _) => st'
+         | None => nth b0 (ssts s) (p_ds P)
+         end)).
+    rewrite !nth_tab by exact Hb.
+    unfold block_out, gradof. rewrite Hupd, Happly, Hdv, Hds. cbn [b_dims b_w b_st i_grad i_answers].
+    destruct (nth_error e b) as [[g|]|] eqn:He; cbn [i_grad i_answers]; try reflexivity.
+    unfold fn_upd. apply triple_shuffle.
+  Qed.
+
+  Theorem serial_run_fn_is_model_run :
+    forall (es : list (entry (list F))) s,
+      model_run_fn Op c hh ans nb es (sstepc s) (abs_blocks dims nb s)
+      = (sstepc (serial_run P idv es s), abs_blocks dims nb (serial_run P idv es s)).
+  Proof.
+    induction es as [|e es IH]; intros s; cbn; [reflexivity|].
+    pose proof (step_abs_fn s e) as Hs.
+    destruct (group_step Op c (hh (sstepc s + 1)) (sstepc s) (abs_blocks dims nb s) (fn_ins ans nb (sstepc s + 1) e)) as [[t' bs'] qs]. cbn [fst] in Hs.
+    assert (Ht : t' = sstepc (serial_step P idv s e)) by congruence.
+    assert (Hb : bs' = abs_blocks dims nb (serial_step P idv s e)) by congruence.
+    subst t' bs'. unfold serial_run in *. cbn [fold_left]. apply IH.
+  Qed.
+End ComposeFnFacts.
